@@ -90,6 +90,15 @@ def frame(spec, lo, hi):
         )
         m = (out.Date >= pd.Timestamp(lo)) & (out.Date <= pd.Timestamp(hi))
         out = out[m].reset_index(drop=True)
+    # from a given date on, take the values of another weather spec (C14 perturbations)
+    sw = spec.get("switch")
+    if sw is not None:
+        a = pd.Timestamp(_d(sw["from"]))
+        if a <= pd.Timestamp(hi):
+            other = frame(sw["to"], max(lo, a.date()), hi)
+            m = out.Date >= a
+            for c in ("MinTemp", "MaxTemp", "Precipitation", "ReferenceET"):
+                out.loc[m, c] = other[c].to_numpy()[-int(m.sum()):] if int(m.sum()) else []
     # global transforms
     if spec.get("rain_mult", 1) != 1:
         out["Precipitation"] = np.round(out["Precipitation"] * spec["rain_mult"], 3)
